@@ -10,8 +10,9 @@ claim("C18", E1,
       REAL, "jaxpr -> SMT (z3 QF_NRA/UF), unsat = holds for all values within the shape bound; sat models replayed on the real code",
       "DESIGN.md §3 C18")
 
-for _p in ["C01", "C02", "C03", "C04", "C05", "C06", "C07", "C08", "C09", "C10", "C11", "C12", "C13", "C14", "C15", "C16", "C17", "C19", "C20"]:
-    NOT_APPLICABLE[_p] = "check not built yet in this round (planned in DESIGN.md §3); not claimed until its harness lands"
+NOT_APPLICABLE["C09"] = ("solver-based checking cannot decide bit-identical determinism of whole training runs: XLA float32 kernels are modelled as reals, "
+                         "the environment is a stub and a full run is beyond any bound; a seed-provenance check of the Python layer would not be the property "
+                         "as stated (DESIGN.md §4)")
 
 claim("C07", E1,
       "Bounded symbolic check of compute_gae (T<=6), discounted_n_step_return (H<=5), discounted_reward_to_go (n<=7), prepare_a2c_batch "
